@@ -1,7 +1,15 @@
 ------------------------------ MODULE Trace_C15 ------------------------------
-(* Trace validation for C15: no data race reported by the race detector during the run;   *)
-(* every verdict a call gives alone is the one SharedState!Verdicts prescribes, and every   *)
-(* result observed under concurrency (per variant) is the one the same call gives alone.  *)
+(* Trace validation for C15.  One line = one concurrent run of a case (Gen_C15):               *)
+(*   no_data_race                     the race detector reported nothing during the run          *)
+(*   returns_normally                 no panic, no fatal error, no hang                           *)
+(*   verdict_the_document_prescribes  every verdict a call gives alone is SharedState!Verdicts   *)
+(*   verdict_as_when_run_alone        every result observed under concurrency (per variant;      *)
+(*                                    verdict AND the type of the error returned) is one the     *)
+(*                                    same call gives alone                                      *)
+(*   shared_state_unchanged           the observable shared state (SharedState!Observable: the   *)
+(*                                    documents, the decoder / encoder registries, the format    *)
+(*                                    tables, the switches) is the same after the run as before: *)
+(*                                    the model's catalogue has no write to them (MC_C15!Frame)  *)
 EXTENDS Naturals, Sequences, FiniteSets, TLC, Json, CSV
 Trace == ndJsonDeserialize("trace.ndjson")
 VARIABLE l
@@ -9,19 +17,29 @@ Init == l = 0
 Next == l < Len(Trace) /\ l' = l + 1
 Spec == Init /\ [][Next]_l
 
-SS == INSTANCE SharedState WITH DefaultCopied <- TRUE, RouteCopied <- TRUE, MaxOps <- 1, prog <- <<>>, held <- <<>>
+SS == INSTANCE SharedState WITH DefaultCopied <- TRUE, RouteCopied <- TRUE, SettingsPerCall <- TRUE, VisitReadsSettings <- TRUE,
+         RegistryInitOnly <- TRUE, TypeInfosLocked <- TRUE, PatternCacheAtomic <- TRUE, UriCacheLocked <- TRUE,
+         UniqueCheckerSet <- TRUE, WithWriters <- FALSE, MaxOps <- 1, prog <- <<>>, held <- <<>>
+F == INSTANCE FindingsC15
 Range(f) == {f[i] : i \in DOMAIN f}
+OpOf(r) == <<r.op.e, r.op.f>>
 Failed(line) ==
    IF line.outcome = "race" THEN {"no_data_race"}
    ELSE IF line.outcome \in {"panic", "crash", "hang"} THEN {"returns_normally"}
-   ELSE IF \E i \in DOMAIN line.runs : line.runs[i].verdicts # SS!Verdicts(line.runs[i].op)
-        THEN {"verdict_the_document_prescribes"}
-   ELSE IF \E i \in DOMAIN line.runs : ~(Range(line.runs[i].conc) \subseteq Range(line.runs[i].alone))
-        THEN {"verdict_as_when_run_alone"} ELSE {}
+   ELSE (IF \E i \in DOMAIN line.runs : OpOf(line.runs[i]) \notin SS!Ops \/ line.runs[i].verdicts # SS!Verdicts(OpOf(line.runs[i]))
+         THEN {"verdict_the_document_prescribes"} ELSE {})
+        \cup (IF \E i \in DOMAIN line.runs : ~(Range(line.runs[i].conc) \subseteq Range(line.runs[i].alone))
+              THEN {"verdict_as_when_run_alone"} ELSE {})
+        \cup (IF line.before # line.after THEN {"shared_state_unchanged"} ELSE {})
 LineOK(line) ==
    LET bad == Failed(line) IN
    bad = {} \/ CSVWrite("%1$s", <<ToJson([case |-> line.case, c |-> line.c, failed |-> bad, outcome |-> line.outcome,
-                                           runs |-> (IF "runs" \in DOMAIN line THEN line.runs ELSE <<>>), class |-> "none"])>>,
+                                           runs |-> (IF "runs" \in DOMAIN line THEN line.runs ELSE <<>>),
+                                           racefns |-> (IF "racefns" \in DOMAIN line THEN line.racefns ELSE <<>>),
+                                           where |-> (IF "racefns" \in DOMAIN line THEN [i \in DOMAIN line.racefns |-> SS!SiteLocation(line.racefns[i])] ELSE <<>>),
+                                           before |-> (IF "before" \in DOMAIN line THEN line.before ELSE <<>>),
+                                           after |-> (IF "after" \in DOMAIN line THEN line.after ELSE <<>>),
+                                           class |-> F!Class(line, bad)])>>,
                         "violations.ndjson")
 Judge == l > 0 => LineOK(Trace[l])
 AllConsumed == TLCGet("stats").diameter = Len(Trace) + 1
